@@ -24,6 +24,36 @@ D_SOL = D_ALL - {"rownames", "colnames", "rowtab", "coltab", "nzcount", "intmark
 D_STRUCT = {"A", "nrows", "ncols", "nstruct", "structmap", "rowmap"}
 
 INVALIDATORS = {"free_cache"}
+
+
+def invalidator_names(prog):
+    """free_cache and the static helpers that call it (or another such helper) with their own first parameter on every path to their
+    return: `static void partial_batch_invalidate (p) { drop_devex_info (p); free_cache (p); p->factorok = 0; }` invalidates like the
+    call it wraps"""
+    cached = getattr(prog, "_invalidator_names", None)
+    if cached is not None:
+        return cached
+    from ..core import dominators
+    names = set(INVALIDATORS)
+    changed = True
+    while changed:
+        changed = False
+        for f in prog.funcs.values():
+            if f.live is None or not f.static or base(f.name) in names or not f.params:
+                continue
+            sites = []
+            for b_, i_, c in f.calls():
+                if base(callee(c) or "") in names and c[3] and is_var(c[3][0]) and strip(c[3][0])[1] == "p0":
+                    sites.append(b_["id"])
+            if not sites:
+                continue
+            dom, succ = dominators(prog, f)
+            rets = [b_["id"] for b_, i_, e in f.elements() if e[0] == "R"] or [f.exit]
+            if all(any(sb in dom.get(rb, ()) for sb in sites) for rb in rets):
+                names.add(base(f.name))
+                changed = True
+    prog._invalidator_names = names
+    return names
 # documented guarded form (qsopt.c: "If we only delete basic rows then cached soln is valid")
 # the waiver variable is not named: it is the local whose address QSdelete_rows passes as the last argument of ILLlib_delrows
 WAIVER = {"QSdelete_rows": (("ILLlib_delrows", 6), "only basic rows were deleted: ILLlib_delrows reports through cache_ok that the cached "
@@ -172,7 +202,7 @@ def run_inval(prog, E=None, prefix="mpq_", rule="R-INVAL"):
             inv = set()
             unknown_api_call = False
             for (g, name, loc, args, bid, idx, c) in E.callinfo[f.key]:
-                if name and base(name) in INVALIDATORS and args and args[0][0] == "p%d" % pidx and not args[0][2]:
+                if name and base(name) in invalidator_names(prog) and args and args[0][0] == "p%d" % pidx and not args[0][2]:
                     inv.add((bid, idx))
                 elif g is not None and g.key in mutators and g.key != f.key:
                     if g.key in ok_funcs:
@@ -908,7 +938,7 @@ def run_failpath(prog, E=None, prefix="mpq_", rule="R-INVALPART"):
             continue
         inv = set()
         for b, i, c in f.calls():
-            if (callee(c) or "") in INVALIDATORS or base(callee(c) or "") in INVALIDATORS:
+            if base(callee(c) or "") in invalidator_names(prog):
                 inv.add((b["id"], i))
         n += 1
         res.obligations += len(part)
